@@ -2102,6 +2102,32 @@ def schemavar_listed():
     return _SCHEMAVAR_LISTED
 
 
+_VARSPEC_LISTED = None
+
+
+def varspec_listed():
+    """[C19-varspec] - the rank-free instantiation order ([C19-spec]) read on calls that involve a VARIADIC candidate: the
+    selected candidate is a strict generalisation of another matching candidate (the variadic one expanded to the call's
+    arity).  Two mechanisms: the one of finding C19-a reached through a tail (*TSB[a:~U,b:~V] against a bare ~S), and one
+    of the variadic rank formula itself - the tail pattern is ranked in an accumulator of its own, so a variable it SHARES
+    with the fixed part is charged again per tail argument, and the candidate pays the variadic point: f(~T, *~T) ranks
+    20001 on two arguments and loses against the strictly more general f(~P, ~Q) (20000), ties with f(~T, *~U).
+    Evaluated and counted on every run (features 'variadic:specificity-inversion:*'); REPORTED as a monitor failure only
+    once known_findings.json lists a finding of C19 whose fingerprint matches '[C19-varspec]' (as for [C19-schemavar])"""
+    global _VARSPEC_LISTED
+    if _VARSPEC_LISTED is None:
+        _VARSPEC_LISTED = False
+        try:
+            import json
+            data = json.load(open(os.path.join(os.path.dirname(BUILD), "known_findings.json")))
+            for k in data.get("findings", []):
+                if k.get("property") == ID and k.get("status") == "known" and re.search(k["fingerprint"], "[C19-varspec]"):
+                    _VARSPEC_LISTED = True
+        except Exception:
+            pass
+    return _VARSPEC_LISTED
+
+
 def _bundle_relation(p, c, feats, depth=0):
     """histogram: how the bundles of an argument relate to the field-listing bundle patterns they meet"""
     k = p[0]
@@ -2201,6 +2227,7 @@ def _analyse(case, out):
     [C19-schemavar] notes of the case are left in _analyse.schemavar"""
     bad, feats, spec = [], set(), []
     _analyse.schemavar = sv = []
+    _analyse.varspec = []
     nontrivial = False
     family, order, perms, base = {}, [], [], {}
     for ln, o in zip(case.lines, list(out) + ["<none>"] * len(case.lines)):
@@ -2455,6 +2482,21 @@ def _check_call(ln, args, o, family, order, perms, bad, feats, spec, sv=None):
             for l in members:
                 if l != got[1] and l in msurv and l in family and eff.get(l) is not None \
                         and strictly_more_specific(eff[l], eff[got[1]]):
+                    if is_variadic(family[l]) or is_variadic(family[got[1]]):
+                        # through a variadic candidate: its own tag (see varspec_listed); `l` is more specific in THIS
+                        # call - its tail pattern stands once per supplied tail argument
+                        dl, dw = doc_rank(eff[l][0]), doc_rank(eff[got[1]][0])
+                        feats.add("variadic:specificity-inversion:" +
+                                  ("shared-variable-charged-per-tail-argument" if dl < dw     # as fixed arity it would win
+                                   else "variadic-point-breaks-a-tie" if dl == dw
+                                   else "structure-outweighs-the-variable-budget"))           # C19-a, through a tail
+                        msg = ("[C19-varspec] %s: selected %s although the more specific %s also matches (as a fixed-arity "
+                               "signature for this call it is %s, documented rank %d against %d)"
+                               % (ln, show_params(family[got[1]][0]), show_params(family[l][0]), show_params(eff[l][0]),
+                                  doc_rank(eff[l][0]), doc_rank(eff[got[1]][0])))
+                        if msg not in _analyse.varspec:
+                            _analyse.varspec.append(msg)
+                        continue
                     msg = ("[C19-spec] selected %s although the more specific %s also matches (call %s)"
                            % (show_params(family[got[1]][0]), show_params(family[l][0]), ln[5:]))
                     if msg not in spec:
@@ -2641,6 +2683,8 @@ def monitor(stream, case, out):
         return bad[:3]
     if stream == BUNDLE_STREAM and _analyse.schemavar and schemavar_listed():
         return _analyse.schemavar[:3]
+    if stream == VAR_STREAM and _analyse.varspec and varspec_listed():
+        return _analyse.varspec[:3]
     return spec[:3] if stream == SPEC_STREAM else []
 
 
